@@ -222,6 +222,7 @@ func labelVarCase(c varCase, o *Obs) (nontrivial bool) {
 	if err != nil {
 		return false
 	}
+	o.LabelIf(len(names) > 55, "queries>55")
 	ea := c.effectiveAnno()
 	for _, n := range names {
 		v := views[n]
